@@ -210,9 +210,68 @@ let cmd_collect () =
   List.iter (fun (_, body) -> print_string body; print_char '\n') ns;
   List.iter (fun e -> print_string e; print_char '\n') es
 
+(* rules: stdin lines "<id> <hex rule text>" -> what parse_ci / extract_file give *)
+let cmd_rules () =
+  let rec loop () =
+    match read_line_opt () with
+    | None -> ()
+    | Some l when l = "" -> loop ()
+    | Some l ->
+      (match words l with
+       | [id; th] ->
+         let t = bytes_of_hex th in
+         let r = parse_ci t in
+         Printf.printf "RULE %s id=%s desc=%s sev=%s impact=%s provider=%s ciq=%s fileq=%s\n" id
+           (hexb r.r_id) (hexb r.r_desc) (hexb r.r_severity) (hexb r.r_impact) (hexb r.r_provider) (hexb r.r_query) (hexb (extract_file t));
+         loop ()
+       | _ -> failwith ("rules: bad line " ^ l))
+  in loop ()
+
+(* ci <graph>: stdin lines "<hex rule text>" in ruleset order -> per rule its entry and the SARIF results *)
+let cmd_ci (graph_file : string) =
+  let ic = open_in graph_file in
+  let nodes = ref [] in
+  (try while true do
+       let l = input_line ic in
+       if String.length l > 5 && String.sub l 0 5 = "NODE " then nodes := node_of_line l :: !nodes
+     done with End_of_file -> ());
+  close_in ic;
+  let g = List.rev !nodes in
+  let rules = ref [] in
+  (try while true do let l = input_line stdin in if l <> "" then rules := bytes_of_hex l :: !rules done with End_of_file -> ());
+  let rules = List.rev !rules in
+  List.iteri (fun i e ->
+      Printf.printf "ENTRY %d id=%s query=%s outcome=%s\n" i (hexb e.e_rule.r_id) (hexb e.e_rule.r_query)
+        (match e.e_outcome with
+         | SyntaxError -> "syntaxerror"
+         | Answer a -> "answer:" ^ String.concat ";" (List.map (fun t -> String.concat "|" (List.map pr_entity t)) a.a_results)))
+    (ci_run rules g);
+  List.iter (fun s -> Printf.printf "SARIF file=%s line=%d rule=%s level=%s message=%s\n"
+                (hexb s.s_file) (int_of_n s.s_line) (hexb s.s_rule) (hexb s.s_level) (hexb s.s_message)) (ci_sarif rules g)
+
+(* bundle <dirname-hex>: stdin lines "<hex name> <hex content>" (directory entries in lexical order) *)
+let cmd_bundle (dirname : string) =
+  let es = ref [] in
+  (try while true do
+       let l = input_line stdin in
+       match words l with [n; c] -> es := (bytes_of_hex n, bytes_of_hex c) :: !es | _ -> ()
+     done with End_of_file -> ());
+  let es = List.rev !es in
+  (match produce (bytes_of_hex dirname) es with
+   | None -> print_string "PRODUCE none\n"
+   | Some b ->
+     Printf.printf "PRODUCE %s\n" (hexb b);
+     (match consume b with
+      | None -> print_string "CONSUME none\n"
+      | Some l -> Printf.printf "CONSUME %s\n" (hexlist l)));
+  Printf.printf "LOCAL %s\n" (hexlist (load_local es))
+
 let () =
   match Array.to_list Sys.argv with
   | [_; "build"] -> cmd_build ()
+  | [_; "rules"] -> cmd_rules ()
+  | [_; "ci"; g] -> cmd_ci g
+  | [_; "bundle"; d] -> cmd_bundle d
   | [_; "collect"] -> cmd_collect ()
   | [_; "query"; g] -> cmd_query g
   | _ -> prerr_endline "usage: model build < cases | model query <graph> < queries"; exit 2
